@@ -13,7 +13,8 @@
 //
 //	gas used ≤ gas wanted for a tx whose ante installed a meter of gasWanted
 //	    (class gasused-exceeds-wanted-on-oog when the tx failed out-of-gas — the known finding);
-//	out-of-gas tx ⇒ deliver' = deliver ⊕ ante-writes;
+//	out-of-gas (and any failed) tx ⇒ deliver' = deliver ⊕ ante-writes, compared on the whole state
+//	    (classes oog-effects-kept / failed-effects-kept), side cache untouched;
 //	block consumed' = block consumed + min(gas used, limit of the tx meter) unless that sum leaves int64;
 //	a tx arriving at an exhausted block meter runs neither ante nor messages and changes nothing;
 //	CheckTx / Simulate never charge the block;
@@ -247,39 +248,60 @@ func oracleTx(o *rk.Obs) string {
 		kind = tx.Ante.Kind
 		preGas = hasGasSteps(tx.Ante.Pre)
 	}
-	// (1) gas used ≤ gas wanted, for a tx metered by a meter of gasWanted
-	// (a completed ante of kind b/p; or, on DeliverTx, an ante of kind b that did not complete or
-	// never ran: the reported pair is then (0, gas charged before the meter was installed).
-	// CheckTx/Simulate without a completed ante report the shared check-state meter and are not judged.)
-	applies := !preGas && ((o.AnteDone && (kind == 'b' || kind == 'p')) ||
-		(!o.AnteDone && o.Op == "tx" && (kind == 'b' || !o.AnteRan)))
-	if applies && o.GU > o.GW {
-		if o.Res == "err:oog" {
-			return fmt.Sprintf("VIOL:gasused-exceeds-wanted-on-oog used=%d wanted=%d", o.GU, o.GW)
+	// (2) a failed tx — out of gas first of all — discards every message effect and keeps the fee:
+	// deliver' = deliver ⊕ ante-writes (deliver itself if the ante did not complete). This compares the
+	// WHOLE deliver state, so a message write to a key the ante read or wrote must be gone too.
+	if o.Op == "tx" && o.Res != "ok" {
+		exp := b.Deliver
+		if o.AnteDone {
+			exp = rk.Overlay(b.Deliver, tx.AnteWrites())
 		}
-		if o.Res == "err:internal" && b.HasBlock && !new(big.Int).Add(bigI(b.BlkCons), bigI(o.GW)).IsInt64() {
-			// the tx ran out of gas, then charging the block meter left int64: the gas-overflow panic
-			// replaced the out-of-gas one (only reachable on an unlimited block meter)
-			return fmt.Sprintf("VIOL:gasused-exceeds-wanted-on-oog-block-overflow used=%d wanted=%d block=%d", o.GU, o.GW, b.BlkCons)
+		if !rk.SameMap(a.Deliver, exp) {
+			cls := "failed-effects-kept"
+			if o.Res == "err:oog" {
+				cls = "oog-effects-kept"
+			}
+			return fmt.Sprintf("VIOL:%s res=%s expected=%s got=%s", cls, o.Res, rk.ShowMap(exp), rk.ShowMap(a.Deliver))
 		}
-		return fmt.Sprintf("VIOL:gasused-exceeds-wanted res=%s used=%d wanted=%d", o.Res, o.GU, o.GW)
+		if !rk.SameMap(a.VM, b.VM) || o.Hook == "ok" {
+			return fmt.Sprintf("VIOL:failed-cache-kept res=%s", o.Res)
+		}
 	}
+	gasVerdict := func() string {
+		// (1) gas used ≤ gas wanted, for a tx metered by a meter of gasWanted
+		// (a completed ante of kind b/p; or, on DeliverTx, an ante of kind b that did not complete or
+		// never ran: the reported pair is then (0, gas charged before the meter was installed).
+		// CheckTx/Simulate without a completed ante report the shared check-state meter and are not judged.)
+		applies := !preGas && ((o.AnteDone && (kind == 'b' || kind == 'p')) ||
+			(!o.AnteDone && o.Op == "tx" && (kind == 'b' || !o.AnteRan)))
+		if applies && o.GU > o.GW {
+			if o.Res == "err:oog" {
+				return fmt.Sprintf("VIOL:gasused-exceeds-wanted-on-oog used=%d wanted=%d", o.GU, o.GW)
+			}
+			if o.Res == "err:internal" && b.HasBlock && !new(big.Int).Add(bigI(b.BlkCons), bigI(o.GW)).IsInt64() {
+				// the tx ran out of gas, then charging the block meter left int64: the gas-overflow panic
+				// replaced the out-of-gas one (only reachable on an unlimited block meter)
+				return fmt.Sprintf("VIOL:gasused-exceeds-wanted-on-oog-block-overflow used=%d wanted=%d block=%d", o.GU, o.GW, b.BlkCons)
+			}
+			return fmt.Sprintf("VIOL:gasused-exceeds-wanted res=%s used=%d wanted=%d", o.Res, o.GU, o.GW)
+		}
+		return ""
+	}()
+	// every other clause is evaluated first: the known finding of clause (1) must never mask them
+	if v := oracleRest(o, kind); strings.HasPrefix(v, "VIOL:") || gasVerdict == "" {
+		return v
+	}
+	return gasVerdict
+}
+
+func oracleRest(o *rk.Obs, kind byte) string {
+	b, a := o.Before, o.After
 	if o.Op != "tx" {
 		// (5) off-chain modes never charge the block
 		if b.HasBlock != a.HasBlock || b.BlkCons != a.BlkCons {
 			return fmt.Sprintf("VIOL:block-charged-offchain before=%d after=%d", b.BlkCons, a.BlkCons)
 		}
 		return "ok"
-	}
-	// (2) out of gas ⇒ message effects discarded, fee kept
-	if o.Res == "err:oog" {
-		exp := b.Deliver
-		if o.AnteDone {
-			exp = rk.Overlay(b.Deliver, tx.AnteWrites())
-		}
-		if !rk.SameMap(a.Deliver, exp) {
-			return fmt.Sprintf("VIOL:oog-effects expected=%s got=%s", rk.ShowMap(exp), rk.ShowMap(a.Deliver))
-		}
 	}
 	limited := b.BlkLimit != 0
 	exhausted := limited && b.BlkCons >= b.BlkLimit
